@@ -48,8 +48,8 @@ impl Property for C07 {
         let per = match (tier, suite.slow()) {
             (Tier::Quick, false) => 60,
             (Tier::Quick, true) => 8,
-            (Tier::Thorough, false) => 300,
-            (Tier::Thorough, true) => 50,
+            (Tier::Thorough, false) => 1500,
+            (Tier::Thorough, true) => 150,
         };
         (0..6).map(|s| (s, per)).collect()
     }
